@@ -475,6 +475,16 @@ def flows(ctx, helper, root):
                 ctx.count("flow:attempt-failed:" + sc["name"])
         if sc["name"].startswith("nonce-"):
             ctx.count("flow:nonce-fault-fired=%s" % any(x["_src"].get("rule") for x in recs))
+        if sc["name"].startswith("rollover-contact-refused"):
+            # the scripted refusal must have hit what the scenario is about: a contact UPDATE (not the account
+            # query that precedes a roll-over) sent after a roll-over the CA accepted
+            hit = [i for i, x in enumerate(recs) if x["_src"].get("rule")]
+            ok_shape = bool(hit) and "contact" in (recs[hit[0]]["_src"].get("payload") or "") and \
+                any(x["kind"] == "keyChangeInner" for x in recs[:hit[0]])
+            ctx.count("flow:rollover-contact-refused:fault-hit-the-contact-update=%s" % ok_shape)
+            if not ok_shape:
+                ctx.broke("harness", "the scripted refusal of %s did not hit a contact update that follows an accepted "
+                          "roll-over: the scenario tests nothing" % sc["name"], {"sc": sc, "hit": hit})
         if sc.get("forget"):
             ctx.count("flow:registrations-after-forgetting", max(0, sum(1 for x in recs if x["kind"] == "newAccount" and x["_src"].get("account_created")) - 1))
         if sc.get("lost") and "_recs_x" in r:
